@@ -356,6 +356,9 @@ class AsyncFIXConnection:
                         self._connection_state
                         <= ConnectionState.DISCONNECTED_BROKEN_CONN
                     ):
+                        # connection was closed while its data was being processed,
+                        #  the rest of it must not leak into the next connection
+                        self._msg_buffer = b""
                         break
 
                     (decoded_msg, parsed_length, raw_msg) = self._codec.decode(
